@@ -11,13 +11,13 @@ git checkout -q -- .
 demo=$(ls $sd/*_test.go 2>/dev/null | head -1)
 [ -n "$demo" ] || { echo "no demo test file"; exit 9; }
 sed "/^\/\/go:build/d" "$demo" > $pkg/zz_seed_demo_test.go
-go1.26.8 test ${SEED_TEST_FLAGS:-} -vet=off -count=1 -timeout 300s -run "$re" ./$pkg/ > /tmp/confirm_orig.out 2>&1; r_orig=$?
+unshare -n sh -c "ip link set lo up; go1.26.8 test ${SEED_TEST_FLAGS:-} -vet=off -count=1 -timeout 300s -run '$re' ./$pkg/" > /tmp/confirm_orig.out 2>&1; r_orig=$?
 git apply $sd/patch.diff || { echo "patch does not apply"; rm -f $pkg/zz_seed_demo_test.go; exit 9; }
 go1.26.8 build ./... > /tmp/confirm_build.out 2>&1; r_build=$?
-go1.26.8 test ${SEED_TEST_FLAGS:-} -vet=off -count=1 -timeout 300s -run "$re" ./$pkg/ > /tmp/confirm_seed.out 2>&1; r_seed=$?
+unshare -n sh -c "ip link set lo up; go1.26.8 test ${SEED_TEST_FLAGS:-} -vet=off -count=1 -timeout 300s -run '$re' ./$pkg/" > /tmp/confirm_seed.out 2>&1; r_seed=$?
 rm -f $pkg/zz_seed_demo_test.go
 touched=$(git diff --name-only | xargs -n1 dirname | sort -u | sed 's|^|./|' | tr '\n' ' ')
-go1.26.8 test -vet=off -count=1 -timeout 900s $touched $extra > /tmp/confirm_suite.out 2>&1; r_suite=$?
+unshare -n sh -c "ip link set lo up; go1.26.8 test -vet=off -count=1 -timeout 900s $touched $extra" > /tmp/confirm_suite.out 2>&1; r_suite=$?
 git checkout -q -- .
 echo "demo on original: exit $r_orig ; build with change: exit $r_build ; demo with change: exit $r_seed ; existing tests ($touched $extra) with change: exit $r_suite"
 tail -3 /tmp/confirm_suite.out
